@@ -300,7 +300,14 @@ impl Real {
         let handle = std::thread::spawn(move || {
             hooks::set_enabled(true);
             hooks::set_fault_plan(fault);
-            let res = catch_unwind(AssertUnwindSafe(|| MultiRecordLog::open_with_prefs(&dir, policy_of(pol))));
+            // the default `open` is `open_with_prefs(Always(Flush))`: use it when that is the policy
+            let res = catch_unwind(AssertUnwindSafe(|| {
+                if pol == Pol::AlwaysFlush && fault.is_none() {
+                    MultiRecordLog::open(&dir)
+                } else {
+                    MultiRecordLog::open_with_prefs(&dir, policy_of(pol))
+                }
+            }));
             let events = hooks::take_events();
             let io = hooks::io_calls_made();
             let _ = tx.send((res, events, io));
@@ -480,7 +487,11 @@ impl Real {
                     },
                     Op::Append { q, pos, payloads } => {
                         let bufs: Vec<Vec<u8>> = payloads.iter().map(|p| p.bytes()).collect();
-                        match log.append_records(q, *pos, bufs.iter().map(|b| &b[..])) {
+                        // single appends go through `append_record` every other time (the thin
+                        // wrapper is API surface too)
+                        let single = bufs.len() == 1 && (bufs[0].len() + pos.unwrap_or(0) as usize) % 2 == 0;
+                        let res = if single { log.append_record(q, *pos, &bufs[0][..]) } else { log.append_records(q, *pos, bufs.iter().map(|b| &b[..])) };
+                        match res {
                             Ok(o) => Outcome::Appended(o.last_position, o.wal_bytes_written),
                             Err(AppendError::MissingQueue(_)) => Outcome::ErrMissing,
                             Err(AppendError::Past) => Outcome::ErrPast,
